@@ -23,6 +23,7 @@ import (
 	"time"
 
 	"github.com/emitter-io/emitter/internal/async"
+	"github.com/emitter-io/emitter/internal/verifyield"
 	"github.com/kelindar/rate"
 )
 
@@ -60,19 +61,24 @@ func (m *Conn) Read(p []byte) (int, error) {
 
 // Write writes the block of data into the underlying buffer.
 func (m *Conn) Write(p []byte) (int, error) {
+	verifyield.Point("listener.Conn.Write:entry")
 
 	// If we have reached the limit we can possibly write, queue up the packet.
 	if m.limit.Limit() {
+		verifyield.Point("listener.Conn.Write:limited")
 		return m.enqueue(p)
 	}
 
 	// If we have something in the buffer, flush everything.
 	if m.Len() > 0 {
+		verifyield.Point("listener.Conn.Write:pending")
 		m.enqueue(p)
+		verifyield.Point("listener.Conn.Write:enqueued")
 		return m.Flush()
 	}
 
 	// Nothing in the buffer and we're not rate-limited, just write to the socket.
+	verifyield.Point("listener.Conn.Write:direct")
 	return m.socket.Write(p)
 }
 
@@ -85,9 +91,11 @@ func (m *Conn) Close() error {
 
 // Flush flushes the underlying buffer by writing into the underlying connection.
 func (m *Conn) Flush() (n int, err error) {
+	verifyield.Point("listener.Conn.Flush:entry")
 	if m.Len() == 0 {
 		return 0, nil
 	}
+	verifyield.Point("listener.Conn.Flush:nonempty")
 
 	// Flush everything and reset the buffer
 	m.Lock()
